@@ -59,6 +59,12 @@ CHECKS = {
         note="T1, T3, T5 and T13 hold for all inputs against the strict reference; T2 chunked holds outside the open finding kf_c01_trailer_unvalidated (F10: trailer lines are not validated as field lines; witness in Findings/C01_witnesses.v); the whole-stream composition over a pipelined stream (C01_full_dev: the channel loop's offset accounting chaining the per-message theorems) is stated and tested by S-ref, not proved. Seven defects found by this package were repaired in /repo (c72b27e de76ee8 31e2659 272e5a4 e9cbb98 96bc60d 574dcaf). The tie to the Python is sampled.",
         technique="layered refinement proofs in Coq of transliterated parser/receiver/task models to an independent RFC 9112 reference + differential execution of the extracted reference and models against the real channel",
     ),
+    "C13": dict(
+        text="Model/ChanFault.v is a stack-machine interleaving model (I/O thread, two workers; frames for try/except/with/finally, one lock operation / socket call / shared-attribute access per instruction) of wasyncore's event wrappers and send/recv errno mapping, HTTPChannel's read/write/close paths, service()'s worker-side flushes and handle_accept with channel construction, in which the environment answers every recv/send/accept/getsockopt/setsockopt/setblocking/select with a normal result, EOF or any errno, at any step. For ALL schedules and fault placements Coq proves: no worker is ever killed; no exception other than the three re-raised ones escapes the I/O loop; the listening socket and its trigger stay in the map; every teardown step (socket close, map delete, active_channels delete, buffer close) is performed by the I/O thread, at most one socket.close() per channel, and afterwards the descriptor is out of the map and active_channels and the buffers are closed; isolation as step-level unwinding conditions (locality + two-run determinism). The headline theorems are stated for the configuration the source has NOW: two knobs (do_close of the worker-side send_continue flush; whether channel construction is guarded in handle_accept) are regenerated from the source into coq/Gen/GenChanKnobs.v on every run, so a regression of either repair stops the file compiling. Tie: AST shape audit of 45 methods, step-by-step replay of real HTTPChannel / ThreadedTaskDispatcher / wasyncore.poll+poll2 / TcpWSGIServer runs on the extracted model under the deterministic scheduler, fault-placement x schedule search with the property monitor, model BFS explorer.",
+        design_ref="DESIGN.md section 7 C13, section 0.5",
+        note="Isolation is proved per step (unwinding conditions); the composition into one statement about two whole runs is not mechanised - the real two-run property (connection B's wire equals its B-alone reference under all faults on A) is measured. Assumptions: select raises EBADF for a closed fd at call time, poll reports POLLNVAL; descriptor numbers are not reused while a stale reference exists; socket.close() and logging do not fail. Two defects found by this package were repaired in /repo (8a2ea3a F17, da3bf3a F18 worker-side close). The interleaving of the I/O thread's unlocked flush with the worker's locked flush in send_continue (duplicate send) is C04's open subject; no C13 clause depends on it.",
+        technique="inductive invariants in Coq over a stack-machine interleaving model with exception frames + knobs regenerated from the source + deterministic-scheduler step replay of the real code on the extracted model, AST shape audit, fault x schedule search",
+    ),
 }
 
 NOT_YET = {}
